@@ -1,5 +1,5 @@
 SPECIFICATION Spec
-CONSTANTS NX = 4  NY = 3  NZ = 3  Variant = "doc"  HaloMode = "all"  NumFields = 1  NumWidths = 2  Parts = 1
+CONSTANTS NX = 4  NY = 3  NZ = 3  Variant = "doc"  HaloMode = "all"  NumFields = 1  NumWidths = 2  DetMode = "all"  Parts = 1
 INVARIANT TypeOK
 INVARIANT RecordIsFormula
 INVARIANT PathsAgree
